@@ -18,7 +18,10 @@ import (
 )
 
 // okPlan: all-success, no-retry plan with small latencies.
-func okPlan(r *rand.Rand, name string) spec.Plan {
+func okPlan(r *rand.Rand, name string) spec.Plan { return okPlanN(r, name, 2) }
+
+// okPlanN: at most maxActions actions per sequence (1 on the cosmosdb fake, which does not keep action order).
+func okPlanN(r *rand.Rand, name string, maxActions int) spec.Plan {
 	p := spec.Plan{Name: name}
 	chk := func() *spec.Checks {
 		return &spec.Checks{DelayUS: 500 + r.Intn(1500), Actions: []spec.Action{{Steps: []plug.Step{{Out: plug.OK, SleepUS: r.Intn(1500)}}}}}
@@ -45,7 +48,7 @@ func okPlan(r *rand.Rand, name string) spec.Plan {
 		}
 		for s := 0; s < 1+r.Intn(3); s++ {
 			var sq spec.Seq
-			for a := 0; a < 1+r.Intn(2); a++ {
+			for a := 0; a < 1+r.Intn(maxActions); a++ {
 				sq.Actions = append(sq.Actions, spec.Action{Steps: []plug.Step{{Out: plug.OK, SleepUS: 500 + r.Intn(2500)}}})
 			}
 			blk.Seqs = append(blk.Seqs, sq)
@@ -74,6 +77,10 @@ type c12Env struct {
 	specs map[string]*spec.Plan // plan id -> spec
 	ids   []uuid.UUID           // submitted ids
 	del   []uuid.UUID           // deleted ids
+	// cancelStart: Start is called with a context that is cancelled as soon as Start has returned (the usual
+	// `ctx, cancel := ...; defer cancel()` caller; documented not to stop the execution)
+	cancelStart bool
+	maxActions  int
 }
 
 func (e *c12Env) record(c apiCall) {
@@ -85,7 +92,11 @@ func (e *c12Env) record(c apiCall) {
 func (e *c12Env) submit(ctx context.Context, r *rand.Rand, client int) (uuid.UUID, error) {
 	e.mu.Lock()
 	name := fmt.Sprintf("p%d", len(e.specs))
-	ps := okPlan(r, name)
+	ma := e.maxActions
+	if ma == 0 {
+		ma = 2
+	}
+	ps := okPlanN(r, name, ma)
 	e.mu.Unlock()
 	cs := e.env.Log.Append(plug.Event{Kind: "call", API: "Submit", Client: client})
 	id, err := e.env.WS.Submit(ctx, ps.Build())
@@ -113,7 +124,13 @@ func errStr(err error) string {
 
 func (e *c12Env) start(ctx context.Context, id uuid.UUID, class string, client int) error {
 	cs := e.env.Log.Append(plug.Event{Kind: "call", API: "Start", Client: client, PlanID: id.String()})
-	err := e.env.WS.Start(ctx, id)
+	sctx := ctx
+	if e.cancelStart {
+		var cancel context.CancelFunc
+		sctx, cancel = context.WithCancel(ctx)
+		defer cancel()
+	}
+	err := e.env.WS.Start(sctx, id)
 	rs := e.env.Log.Append(plug.Event{Kind: "ret", API: "Start", Client: client, PlanID: id.String(), Err: errStr(err)})
 	e.record(apiCall{Client: client, Op: "Start", IDClass: class, ID: id.String(), CallSeq: cs, RetSeq: rs, Err: errStr(err)})
 	return err
@@ -297,13 +314,27 @@ func c12Run(c *Ctx, idx int) CaseResult {
 		opts = append(opts, coercion.WithMaxSubmit(staleMax))
 	}
 	delay := []int{0, 500, 2000}[r.Intn(3)]
-	env, err := eng.NewEnv(ctx, r.Int63(), delay, opts...)
+	// every other start-after-completion history: the context given to Start is cancelled as soon as Start returned;
+	// half of those run on the cosmosdb vault (whose writes honour the context they are given)
+	cancelStart := template == 2 && (idx/6)%2 == 1
+	vaultKind := ""
+	if cancelStart && (idx/6)%4 == 1 {
+		vaultKind = "cosmos"
+		delay = 0
+	}
+	env, err := eng.NewEnvOn(ctx, vaultKind, r.Int63(), delay, opts...)
 	if err != nil {
 		res.Verdict = "inconclusive"
 		res.Note = err.Error()
 		return res
 	}
-	e := &c12Env{env: env, specs: map[string]*spec.Plan{}}
+	e := &c12Env{env: env, specs: map[string]*spec.Plan{}, cancelStart: cancelStart}
+	if vaultKind == "cosmos" {
+		e.maxActions = 1
+		res.Counters["cancelled_start_ctx_cosmos"]++
+	} else if cancelStart {
+		res.Counters["cancelled_start_ctx_sqlite"]++
+	}
 	name := ""
 	switch template {
 	case 0: // racing Starts on one id
@@ -495,7 +526,7 @@ func c12Run(c *Ctx, idx int) CaseResult {
 func init() {
 	register(&Prop{
 		ID: "C12", Level: "exploration", Batch: 6, PerCaseTimeout: 60 * time.Second,
-		Rule:            "case i by i mod 6: (0) 2-8 racing Start calls on one id behind a barrier with vault read/write delays, (1) Start;Start back-to-back, (2) Start after completion, (3) Start of a submission older than WithMaxSubmit(d), d in {100 ms, 300 ms, 1 s, 2 s}, by at least {120 ms, 300 ms, 1.5 s} (a sleep only overshoots), (4) Start/Wait/Plan/Status on unknown, nil and deleted ids, (5) PRNG programs of 1-8 client goroutines over Submit/Start/Wait/Status/Plan on known/unknown/nil/deleted ids; all plans are all-success, no-retry; oracle: process alive, every action invoked at most once (exactly once if a Start succeeded), a Start after a successful Start's return is rejected, rejected Starts cause no write/begin; each batch of 6 histories runs in its own child process; distinct by (template, call/outcome list)",
+		Rule:            "case i by i mod 6: (0) 2-8 racing Start calls on one id behind a barrier with vault read/write delays, (1) Start;Start back-to-back, (2) Start after completion (every other one with the Start context cancelled as soon as Start returned, half of those on the cosmosdb vault: the run must go on and the process live), (3) Start of a submission older than WithMaxSubmit(d), d in {100 ms, 300 ms, 1 s, 2 s}, by at least {120 ms, 300 ms, 1.5 s} (a sleep only overshoots), (4) Start/Wait/Plan/Status on unknown, nil and deleted ids, (5) PRNG programs of 1-8 client goroutines over Submit/Start/Wait/Status/Plan on known/unknown/nil/deleted ids; all plans are all-success, no-retry; oracle: process alive, every action invoked at most once (exactly once if a Start succeeded), a Start after a successful Start's return is rejected, rejected Starts cause no write/begin; each batch of 6 histories runs in its own child process; distinct by (template, call/outcome list)",
 		Cases:           nCases(120, 3000),
 		Run:             c12Run,
 		DiedIsViolation: true,
